@@ -1,5 +1,5 @@
 """Which functions, lemmas, mutations and bounded stand-ins decide each property."""
-from contracts import sort_c, gfa_c, gaf_c
+from contracts import sort_c, gfa_c, gaf_c, io_c
 
 SORT = "gaftools/cli/sort.py"
 CONV = "gaftools/conversion.py"
@@ -321,4 +321,56 @@ PLAN["C13"] = dict(
     mutations=[
         dict(name="exit status 0 on worker failure", file=REALIGN, old="                            sys.exit(1)\n                        continue", new="                            sys.exit(0)\n                        continue", expect="collector-full-groups", functions=_COLLECT[:1]),
     ] + _C11_MUT[:1],
+)
+
+PLAN["C02"] = dict(
+    level="other",
+    functions=[(CONV, "unstable_to_stable"), (CONV, "stable_to_unstable"), (CONV, "to_stable"), (CONV, "merge_nodes")],
+    explanation="PROVED: both streaming generators yield exactly one converted record per parsed record, in input order (loop invariant for any "
+                "number of records); to_stable copies columns 1-4 and 10-12, keeps every optional field other than cg:Z: with its value and "
+                "position, invents no field (a record without CIGAR gets none), and reverses cg:Z: iff the strand flips (part of the whole-function "
+                "contract of to_stable, C01). BOUNDED (not proved): the same for to_unstable's tail, and the two round trips "
+                "(canonical unstable -> stable -> unstable, gaftools-canonical stable -> unstable -> stable) byte for byte.",
+    trusted_base=["GAF.read_file yields the parsed records in file order (C16)", "to_unstable and the round-trip / composition lemma: BOUNDED stand-in only"],
+    not_applicable_clauses=[],
+    mutations=[
+        dict(name="generator skips '-' records", file=CONV, old="    for gaf_line in gaf_input.read_file():\n        yield to_stable(gaf_line, nodes, ref_contig, contig_len)", new="    for gaf_line in gaf_input.read_file():\n        if gaf_line.strand == \"+\":\n            yield to_stable(gaf_line, nodes, ref_contig, contig_len)", expect="unstable_to_stable", functions=[(CONV, "unstable_to_stable")]),
+        dict(name="query_start copied into column 4", file=CONV, old="        gaf_line.query_start,\n        gaf_line.query_end,\n        gaf_line.strand,\n        stable_coord,", new="        gaf_line.query_start,\n        gaf_line.query_start,\n        gaf_line.strand,\n        stable_coord,", expect="to_stable", functions=[(CONV, "to_stable")], quick=False),
+    ],
+)
+
+PLAN["C12"] = dict(
+    level="other",
+    functions=[(REALIGN, "wfa_alignment")],
+    explanation="PROVED (glue around the external aligner, for any batch size and CIGAR length): wfa_alignment puts exactly one item per record, carrying "
+                "the record's input counter as priority, then the sentinel; columns 1-9 and 12 are copied; column 10 is the sum of the lengths of the "
+                "'=' runs and column 11 the sum of all run lengths of the aligner's cigartuples (ghost prefix sums); records with more than 60000 read "
+                "bases are re-emitted with their columns and optional fields; every optional field is printed key+value in stored order. ASSUMED, not "
+                "proved (external C library pywfa): the returned CIGAR consumes both strings, pairs equal bases under '=' and unequal under 'X', and is "
+                "optimal for the gap-affine penalties; the bounded stand-in validates that on generated reads.",
+    trusted_base=["pywfa.WavefrontAligner(ref)(query) returns a valid optimal global alignment (ASSUMED; runtime-validated by the bounded stand-in)",
+                  "extract_path slice / FastaFile.fetch: bounded stand-in", "f-strings read as %-formats (assumed)"],
+    not_applicable_clauses=["validity and optimality of the CIGAR computed inside the pywfa C extension"],
+    mutations=[
+        dict(name="mismatches tallied as matches", file=REALIGN, old="                elif op_type == 8:\n                    mismatch += op_len", new="                elif op_type == 8:\n                    match += op_len", expect="wfa_alignment"),
+        dict(name="sentinel not sent", file=REALIGN, old="    qu.put(None)  # sentinel for finished process", new="    pass", expect="wfa_alignment"),
+    ],
+)
+
+PLAN["C17"] = dict(
+    level="other",
+    functions=[(SORT, "sort#passes"), (INDEX, "run#index-loop"), (GAFPY, "GAF.parse_gaf_line")],
+    lemmas=[io_c.handle_usage_lemma],
+    explanation="PROVED: every consumer of a GAF handle (index.run, sort.sort, GAF.read_file / read_line / close, view.run) touches it only through "
+                "tell / readline / seek / close / iteration (syntactic frame obligation on the working tree), and the loops of index.run and sort.sort "
+                "are verified against the ABSTRACT reader contract (opaque strictly increasing offsets), so their postconditions (C03, C09, C10) hold "
+                "for any handle that satisfies it; parse_gaf_line's postcondition does not depend on gz_flag. ASSUMED (the substance of the property): "
+                "pysam's BGZFile and text files satisfy that reader contract, virtual offsets included, and gzip.open(.., 'rt') yields the same lines "
+                "as open(). BOUNDED: every sub-command on plain vs BGZF (> 64 KiB, several blocks) and .gfa vs .gfa.gz inputs, outputs compared.",
+    trusted_base=["pysam.libcbgzf.BGZFile and text files satisfy the reader contract (ASSUMED; exercised by the bounded stand-in)",
+                  "bytes vs str branches (decode) produce the same text: modelled as identity, bounded only", "is_file_gzipped magic-byte sniffing (assumed)"],
+    not_applicable_clauses=["BGZF / gzip library internals"],
+    mutations=[
+        dict(name="sort reads the handle another way", file=SORT, old="            line = reader.readline()\n            if not line:\n                break", new="            line = reader.read(100)\n            if not line:\n                break", expect="sort"),
+    ],
 )
